@@ -33,6 +33,7 @@ def out(self: Ref['mqtt.client.base.MQTTBaseProtocol']) -> ListBytes:
 @contract('mqtt.client.pubsubs.MQTTProtocol._retrySubscribe', props=['C08', 'C07', 'C02', 'C18', 'C13'])
 def _(self: Ref['mqtt.client.pubsubs.MQTTProtocol'], request: Ref['mqtt.pdu.SUBSCRIBE'], dup: bool):
     requires(wf_proto(self) and is_list_bytes(self.transport.tr_out))
+    requires(not_foreign(self, request))
     requires(is_bytes(request.encoded) and len(as_bytes(request.encoded)) >= 1)
     requires(isa(request.interval, 'mqtt.client.interval.Interval') and wf_interval(request.interval))
     modifies(request.encoded, request.alarm, request.interval._value, self.transport.tr_out, allocates())
@@ -49,6 +50,7 @@ def _(self: Ref['mqtt.client.pubsubs.MQTTProtocol'], request: Ref['mqtt.pdu.SUBS
 @contract('mqtt.client.pubsubs.MQTTProtocol._retryUnsubscribe', props=['C08', 'C07', 'C02', 'C18', 'C13'])
 def _(self: Ref['mqtt.client.pubsubs.MQTTProtocol'], request: Ref['mqtt.pdu.UNSUBSCRIBE'], dup: bool):
     requires(wf_proto(self) and is_list_bytes(self.transport.tr_out))
+    requires(not_foreign(self, request))
     requires(is_bytes(request.encoded) and len(as_bytes(request.encoded)) >= 1)
     requires(isa(request.interval, 'mqtt.client.interval.Interval') and wf_interval(request.interval))
     modifies(request.encoded, request.alarm, request.interval._value, self.transport.tr_out, allocates())
@@ -66,6 +68,7 @@ def _(self: Ref['mqtt.client.pubsubs.MQTTProtocol'], request: Ref['mqtt.pdu.UNSU
 @contract('mqtt.client.pubsubs.MQTTProtocol._retryPublish', props=['C08', 'C05', 'C02', 'C18', 'C13', 'C12'])
 def _(self: Ref['mqtt.client.pubsubs.MQTTProtocol'], request: Ref['mqtt.pdu.PUBLISH'], dup: bool):
     requires(wf_proto(self) and is_list_bytes(self.transport.tr_out))
+    requires(not_foreign(self, request))
     requires(is_bytes(request.encoded) and len(as_bytes(request.encoded)) >= 1)
     requires((is_none(request.interval) and is_none(request.msgId))
              or (is_int(request.msgId) and isa(request.interval, 'mqtt.client.interval.IntervalLinear') and wf_linear(request.interval)))
@@ -88,6 +91,7 @@ def _(self: Ref['mqtt.client.pubsubs.MQTTProtocol'], request: Ref['mqtt.pdu.PUBL
 @contract('mqtt.client.pubsubs.MQTTProtocol._retryRelease', props=['C08', 'C09', 'C02', 'C18', 'C13', 'C12'])
 def _(self: Ref['mqtt.client.pubsubs.MQTTProtocol'], reply: Ref['mqtt.pdu.PUBREL'], dup: bool):
     requires(wf_proto(self) and is_list_bytes(self.transport.tr_out))
+    requires(not_foreign(self, reply))
     requires(is_bytes(reply.encoded) and len(as_bytes(reply.encoded)) >= 1)
     requires(isa(reply.interval, 'mqtt.client.interval.Interval') and wf_interval(reply.interval))
     modifies(reply.encoded, reply.dup, reply.alarm, reply.interval._value, self.transport.tr_out, allocates())
